@@ -162,6 +162,9 @@ def run(ctx, out):
                     sharp = "EACCES"
                 if sharp:
                     errs = sorted(set(errs + [sharp]))
+                if e["sys"] == "openat" and not (e["a"][2] & (os.O_CREAT | os.O_DIRECTORY)):
+                    # a source file that "is not there" at the moment it is opened (it was there when the tree was walked)
+                    errs = sorted(set(errs + ["ENOENT"]))
                 for en in errs:
                     plans.append([(e, nth, en)])
             if not quick:
@@ -170,7 +173,7 @@ def run(ctx, out):
                     plans.append([(a[0], a[1], rng.choice(names)), (b[0], b[1], rng.choice(names))])
             for plan in plans:
                 setup()
-                rules = [("fail", ERRNOS[en], 0, e["sys"], nth, "=" + e["p1"]) for (e, nth, en) in plan]
+                rules = [("fail", dict(ERRNOS, ENOENT=2)[en], 0, e["sys"], nth, "=" + e["p1"]) for (e, nth, en) in plan]
                 r = xcp.run_supervised(sup, argv, d, d, rules=rules, tag="f", timeout_ms=20000)
                 fired = [x for x in r.trace if x.get("inj")]
                 desc = [(e["sys"], e["p1"][len(d):], nth, en) for (e, nth, en) in plan]
@@ -203,7 +206,7 @@ def run(ctx, out):
                     code = CODE.get(e["sys"])
                     if e["sys"] == "openat":
                         code = 2 if e["a"][2] & os.O_CREAT else (20 if not (e["a"][2] & os.O_DIRECTORY) else None)
-                    if e["sys"] == "copy_file_range" and ERRNOS[plan[0][2]] in (1, 38, 18):
+                    if e["sys"] == "copy_file_range" and dict(ERRNOS, ENOENT=2)[plan[0][2]] in (1, 38, 18):
                         code = None      # ENOSYS/EPERM/EXDEV: user-space fall-back, not a failure (C05)
                     if code is not None and e["p1"] != destroot:
                         mcodes.append([code])
